@@ -812,3 +812,32 @@ Proof.
   lia.
 Qed.
 End Mounted.
+
+(* ------------------------------------------------------------------ the prologue reads again *)
+
+(* reads of node n from the source in one Copy call: prologue + copyGraph *)
+Definition reads_in_call (n : node) (pro : list node) (tr : list event) : nat :=
+  count_occ Nat.eq_dec pro n + cnt (is_fetch n) tr.
+
+Definition tr_blobroot : list event :=
+  [ExB 0; ExE 0 false; Cb CPre 0; SFB 0; SFE 0; PuB 0 false; PuE 0 false POk; SFC 0;
+   TagB 0; TagE 0; Cb CPost 0; Ret true].
+
+(* "no blob is fetched from the source more than once" fails for the whole call: a blob root
+   resolved through a ReferenceFetcher is opened in the prologue and fetched again by copyNode *)
+Lemma prologue_read_twice_refuted :
+  exists g c d0 tr st pro n,
+    accepts g c d0 tr = Some st /\ returned st = Some true /\
+    pro = prologue_reads true (c_root c) None /\ g_ismf g n = false /\
+    reads_in_call n pro tr = 2.
+Proof.
+  exists g_blob, (mkCfg 3 MTagger 0 false true [] []), [], tr_blobroot. eexists.
+  exists [0], 0. split; [vm_compute; reflexivity|]. repeat split.
+Qed.
+
+(* within copyGraph the bound is 1, so a call reads a node at most 1 + (its prologue reads) times *)
+Lemma reads_in_call_bound g c d0 tr st n pro :
+  accepts g c d0 tr = Some st -> reads_in_call n pro tr <= count_occ Nat.eq_dec pro n + 1.
+Proof.
+  intro H. unfold reads_in_call. pose proof (fetch_once g c n tr _ _ H). lia.
+Qed.
